@@ -1,5 +1,3 @@
-from openpyxl.utils import column_index_from_string
-
 from excel2pycl.src.context import Context
 from excel2pycl.src.excel import Excel
 from excel2pycl.src.tokens import ColumnControlConstructionToken
@@ -13,7 +11,8 @@ class ColumnControlConstructionTokenTranslator(AbstractTranslator):
             MatrixOfCellIdentifiersTokenTranslator
 
         if token.cell:
-            return str(column_index_from_string(token.cell.cell.column))
+            # resolving the reference also rejects impossible column letters and unknown worksheets with the parser exception
+            return str(excel.fill_cell(token.cell.cell).column + 1)
         elif token.matrix:
             # Mutates matrix, inplace literal cols with digital
             MatrixOfCellIdentifiersTokenTranslator.translate(token.matrix, excel, context)
